@@ -689,7 +689,7 @@ def stat_runner_prints_value_as_computed(chk, rule):
     import rules_io as RIO
     fns = [g for g in prog.fn_list if not g.derived and g.path.startswith("sfs::stat::runner::")]
     comp = RIO.float_computation_in(prog, fns)
-    chk.ob(rule, "stat::runner/prints-the-computed-value(no-float-computation)", len(fns) >= 4 and not comp, "",
+    chk.ob(rule, "stat::runner/prints-the-computed-value(no-float-computation)", len(fns) >= 1 and not comp, "",
            "f64 operations in %d functions of sfs::stat::runner: %s" % (len(fns), comp or "none"))
 
 
